@@ -50,7 +50,7 @@ func genC15(tier string, seed int64) []Case {
 			have[cs.ID] = true
 		}
 		for _, cs := range gen(tier, seed) {
-			if strings.Contains(cs.ID, "/refused-report") && !have["C15:"+cs.ID] {
+			if (strings.Contains(cs.ID, "/refused-report") || strings.Contains(cs.ID, "registrations.flowsCancelled")) && !have["C15:"+cs.ID] {
 				cs := cs
 				cs.Class = "C06:" + cs.Class
 				cs.ID = "C15:" + cs.ID
